@@ -190,6 +190,7 @@ CHECKS["C12"] = {
         ]},
         {"engine": "E", "proxy": ["plain"], "tests": [
             {"run": "TestVfC12Edns", "quick": 2400, "thorough": 1500000, "shards_quick": 8, "shards_thorough": 16, "timeout_thorough": 3400},
+            {"run": "TestVfC12Prefetch", "quick": 16, "thorough": 640, "shards_quick": 8, "shards_thorough": 16, "timeout_thorough": 3000},
         ]},
     ],
     "assumptions": ["at most one OPT per message (RFC 6891)"],
@@ -366,6 +367,7 @@ CHECKS["C14"] = {
             {"run": "TestVfC14Faults", "quick": 320, "thorough": 37890, "shards_quick": 16, "shards_thorough": 16, "timeout_thorough": 3400},
             {"run": "TestVfC14Stale", "quick": 160, "thorough": 24000, "timeout_thorough": 3000, "shards_quick": 8, "shards_thorough": 16},
             {"run": "TestVfC14MassWake", "quick": 64, "thorough": 72000, "timeout_thorough": 3000, "shards_quick": 4, "shards_thorough": 8},
+            {"run": "TestVfC14WriteStall", "quick": 48, "thorough": 1600, "shards_quick": 8, "shards_thorough": 16, "timeout_thorough": 3000},
             {"run": "TestVfC14Saturated", "quick": 96, "thorough": 3200, "shards_quick": 8, "shards_thorough": 16},
         ]},
     ],
